@@ -182,6 +182,8 @@ def check(ctx, replay=None):
     # synthesised operators (binary, compound assignment, relational, indexer) and results whose arms carry no bytes
     nextra += c02_special.run(ctx, xstds, goals=goals)
     nextra += c10_extra.run(ctx, ("cpp",), xstds)
+    import c01_callbacks
+    nextra += c01_callbacks.run(ctx, "cpp", xstds)
     # callbacks: values and state carried through the std::function trampoline (shared with C03's lifecycle histories)
     c03_e2e.run_cpp_callbacks(ctx)
     fails = run_shards(PROP, HEADER, goals) if goals else []
